@@ -145,7 +145,7 @@ def choose(rng, w):
     if len(vecs) >= 1:
         menu += [("stack", 4)]
     if tabs:
-        menu += [("getcol", 4), ("tabwrite_view", 2)]
+        menu += [("getcol", 4), ("tabwrite_view", 2), ("write_cell", 4), ("share_col", 2)]
     if tabs and vecs:
         menu += [("setattr", 3)]
     ops = [m for m, k in menu for _ in range(k)]
@@ -172,6 +172,10 @@ def choose(rng, w):
         return {"op": op, "dst": dst, "t": rng.choice(tabs), "j": rng.randrange(3)}
     if op == "tabwrite_view":
         return {"op": "write_col", "t": rng.choice(tabs), "j": rng.randrange(3)}
+    if op == "write_cell":
+        return {"op": "write_cell", "t": rng.choice(tabs), "j": rng.randrange(3)}
+    if op == "share_col":
+        return {"op": "share_col", "t": rng.choice(tabs), "j": rng.randrange(3), "dst": dst}
     if op == "setattr":
         return {"op": op, "t": rng.choice(tabs), "j": rng.randrange(3), "src": rng.choice(vecs)}
     if op == "drop":
@@ -185,8 +189,16 @@ def target_of(slots, st):
     if st["op"] == "write":
         return slots[st["r"]]
     t = slots[st["t"]]
+    if len(t) == 0 and st["op"] == "write_cell":
+        return None
     cols = t.cols()
     return cols[st["j"] % len(cols)] if cols else None
+
+
+def do_write_cell(t, st):
+    """table item assignment addressing ONE column: only that column's storage decides whether it is refused"""
+    j = st["j"] % len(t.cols())
+    t[0, j] = 7
 
 
 def do_write(o, st):
@@ -245,6 +257,17 @@ def run_step(slots, pool, st):
         if acc:
             setattr(t, acc[0], slots[st["src"]])
         del t, m
+    elif op == "share_col":
+        # a column assigned from a raw caller tuple, and a second vector over the same tuple: they really share storage
+        t = slots[st["t"]]
+        m = t._build_column_map()
+        acc = [k for k, v in m.items() if v == st["j"] % max(len(t.cols()), 1)]
+        if acc and len(t) > 0:
+            tup = tuple(range(500, 500 + len(t)))
+            setattr(t, acc[0], tup)
+            slots[st["dst"]] = Vector(tup)
+            del tup
+        del t, m
     elif op == "drop":
         slots[st["r"]] = None
     elif op == "gc":
@@ -263,7 +286,7 @@ def applicable(kinds, st):
         return all(k(i) == "v" for i in st["srcs"])
     if op == "stack":
         return k(st["a"]) == "v" and k(st["b"]) == "v"
-    if op in ("getcol", "write_col"):
+    if op in ("getcol", "write_col", "write_cell", "share_col"):
         return k(st["t"]) == "t"
     if op == "setattr":
         return k(st["t"]) == "t" and k(st["src"]) == "v"
@@ -309,7 +332,7 @@ def run_history(spec):
             else:
                 st = choose(rng, w)
             steps.append(st)
-            if st["op"] in ("write", "write_col"):
+            if st["op"] in ("write", "write_col", "write_cell"):
                 o = target_of(slots, st)
                 if o is None:
                     continue
@@ -322,7 +345,10 @@ def run_history(spec):
                 del live0, und
                 refused = False
                 try:
-                    do_write(o, st)
+                    if st["op"] == "write_cell":
+                        do_write_cell(slots[st["t"]], st)
+                    else:
+                        do_write(o, st)
                 except serif.AliasError:
                     refused = True
                 except Exception as e:
